@@ -1,0 +1,362 @@
+//go:build verif
+
+// Contracts for the fvc verification-condition generator in /verif (comment-only file; it adds no
+// code to the package and is only seen with -tags verif).
+
+package client
+
+//@ props C18
+
+// ---------------------------------------------------------------------------------------------
+// C18, part 1: the cookie jar
+// ---------------------------------------------------------------------------------------------
+// Cookie attributes are the ghost maps ckKey/ckVal/jcPath/jcExp/jcPooled of /verif/contracts/deps/mw_C18.spec.
+// The jar is  J : host -> sequence of cookie objects  =  cj.hostCookies.
+
+// A cookie with expiry e is live at instant t if it has no expiry or its expiry is not before t.
+// clockNow is the instant of the most recent time.Now() (ghost clock, mw_C18.spec).
+//@ fn jcLive(e int, t int) bool = tUnlimited(e) || tInst(e) >= t
+// The cookie path cp is a prefix of the request path req ("" and "/" are prefixes of every path).
+//@ fn pathMatch(req string, cp string) bool = len(cp) <= 1 || (len(req) >= len(cp) && req[:len(cp)] == cp)
+// The host a URL host is filed under: without the port.
+//@ fn jarHost(h string) string = ite(hpOK(h), hpHost(h), h)
+
+//@ macro jarLen(j, h) = ite(indom(j.hostCookies, h), len(j.hostCookies[h]), 0)
+//@ macro jarAt(j, h, i) = j.hostCookies[h][i]
+//@ macro elemOld(s, k) = old(s[k])
+
+// Well-formedness of the jar: every stored cookie is an object the jar holds exclusively (not in
+// fasthttp's pool, where anybody may acquire and overwrite it), and no object is stored twice.
+// (Stated per host list: the functions below each work on the list of one host.)
+//@ macro listNoPooled(j, h) = !exists(n, 0, jarLen(j, h), jarAt(j, h, n) == nil || jcPooled[jarAt(j, h, n)])
+//@ macro listNoDup(j, h) = !exists(n, 0, jarLen(j, h), exists(m, 0, n, jarAt(j, h, m) == jarAt(j, h, n)))
+
+// Same key, and the stored path starts with `path` (a path of at most one byte matches every stored path).
+//@ macro sameCookie(c, key, path) = ckKey[c] == str(key) && (len(path) <= 1 || (len(jcPath[c]) >= len(path) && jcPath[c][:len(path)] == str(path)))
+
+//@ func searchCookieByKeyAndPath
+//@   pure
+//@   requires no-nil-entries: forall(k, 0, len(cookies), cookies[k] != nil)
+//@   loop 1
+//@     invariant none-before: forall(k, 0, rangeindex + 1, !sameCookie(cookies[k], key, path))
+//@   ensures found-is-first-match: result != nil ==> exists(k, 0, len(cookies), cookies[k] == result && sameCookie(result, key, path) && forall(m, 0, k, !sameCookie(cookies[m], key, path)))
+//@   ensures nil-only-if-absent: result == nil ==> forall(k, 0, len(cookies), !sameCookie(cookies[k], key, path))
+
+// getCookiesByHost(host): purge. The result holds only live cookies, each once, none of them pooled; the
+// expired ones are released to fasthttp's pool (only expired ones, only under the lock, never twice) and -
+// this is what the purge is for - are no longer referenced by the jar afterwards: the jar's list for the
+// host IS the purged list. Lists of other hosts are not touched.
+// (The critical section: jcPooled may change while waiting for the lock - other users of the pool -
+// but never for a cookie the jar holds; that is the lock invariant.)
+// NOT DECIDED HERE: that every live cookie of the old list is in the result and that every result cookie
+// comes from the old list (both need "for all .. exists .." invariants over the in-place shifting
+// `append(cookies[:i], cookies[i+1:]...)`, on which the solvers time out); the loop invariants only pin
+// the not-yet-visited rest of the list to the old list (rest-is-old-rest) and the visited head to be live.
+// Quantified clauses are written "!exists(k, .., !P)" (no k violates P).
+//@ func (*CookieJar).getCookiesByHost
+//@   requires lock-free: !held(cj.mu)
+//@   requires list-not-pooled: listNoPooled(cj, host)
+//@   requires list-no-duplicates: listNoDup(cj, host)
+//@   modifies clockNow, jcPooled, ckKey, ckVal, jcPath, jcExp, heap(E_p_fasthttp_Cookie), heap(MV_string_LJp_fasthttp_Cookie), heap(MD_string_LJp_fasthttp_Cookie)
+//@   lock cj.mu protects jcPooled inv jar-holds-no-pooled-cookie: listNoPooled(cj, host)
+//@   atcall @fasthttp.ReleaseCookie: only-expired-released-under-lock: held(cj.mu) && !jcLive(jcExp[c], clockNow)
+//@   loop 1
+//@     invariant in-place: len(cookies) <= jarLen(cj, host) && 0 <= i && i <= len(cookies) && (jarLen(cj, host) > 0 ==> arr(cookies) == arr(cj.hostCookies[host]) && off(cookies) == off(cj.hostCookies[host]) && cap(cookies) == cap(cj.hostCookies[host]))
+//@     invariant working-list-is-jar-prefix: forall(j, 0, len(cookies), cookies[j] == jarAt(cj, host, j))
+//@     invariant rest-is-old-rest: !exists(k, i + jarLen(cj, host) - len(cookies), jarLen(cj, host), jarAt(cj, host, k - (jarLen(cj, host) - len(cookies))) != elemOld(cj.hostCookies[host], k))
+//@     invariant next-is-old-next: i < len(cookies) ==> cookies[i] == elemOld(cj.hostCookies[host], i + jarLen(cj, host) - len(cookies))
+//@     invariant rest-not-pooled: !exists(k, i + jarLen(cj, host) - len(cookies), jarLen(cj, host), elemOld(cj.hostCookies[host], k) == nil || jcPooled[elemOld(cj.hostCookies[host], k)])
+//@     invariant head-not-in-rest: !exists(j, 0, i, exists(k, i + jarLen(cj, host) - len(cookies), jarLen(cj, host), jarAt(cj, host, j) == elemOld(cj.hostCookies[host], k)))
+//@     invariant head-live: !exists(j, 0, i, !jcLive(jcExp[jarAt(cj, host, j)], clockNow))
+//@     invariant head-distinct: !exists(j, 0, i, exists(m, 0, j, jarAt(cj, host, m) == jarAt(cj, host, j)))
+//@     invariant head-not-pooled: !exists(j, 0, i, jarAt(cj, host, j) == nil || jcPooled[jarAt(cj, host, j)])
+//@     invariant unreleased-unchanged: !existsI(r, !jcPooled[r] && jcExp[r] != old(jcExp[r]))
+//@     invariant map-unchanged: !existsS(h, indom(cj.hostCookies, h) != old(indom(cj.hostCookies, h)) || cj.hostCookies[h] != old(cj.hostCookies[h]))
+//@     invariant still-held: held(cj.mu)
+//@   ensures only-live: !exists(j, 0, len(result), !jcLive(jcExp[result[j]], clockNow))
+//@   ensures each-once: !exists(j, 0, len(result), exists(m, 0, j, result[m] == result[j]))
+//@   ensures none-pooled: !exists(j, 0, len(result), result[j] == nil || jcPooled[result[j]])
+//@   ensures other-hosts-kept: !existsS(h, h != host && (indom(cj.hostCookies, h) != old(indom(cj.hostCookies, h)) || cj.hostCookies[h] != old(cj.hostCookies[h])))
+//@   ensures jar-holds-the-purged-list: jarLen(cj, host) == len(result) && (len(result) > 0 ==> arr(cj.hostCookies[host]) == arr(result) && off(cj.hostCookies[host]) == off(result))
+
+// getByHostAndPath(host, path) - what Get(uri) and dumpCookiesToReq hand out: of the cookies stored for
+// the host (port stripped) exactly those that are live and whose path is a prefix of the request path,
+// each once. (That every one of them was stored for this host follows from where they are taken:
+// the purged list of jarHost(host), see the atcall clause and getCookiesByHost.)
+//@ macro purged() = last((*CookieJar).getCookiesByHost)
+//@ func (*CookieJar).getByHostAndPath
+//@   requires lock-free: !held(cj.mu)
+//@   requires list-not-pooled: listNoPooled(cj, jarHost(str(host)))
+//@   requires list-no-duplicates: listNoDup(cj, jarHost(str(host)))
+//@   modifies clockNow, jcPooled, ckKey, ckVal, jcPath, jcExp, heap(E_p_fasthttp_Cookie), heap(MV_string_LJp_fasthttp_Cookie), heap(MD_string_LJp_fasthttp_Cookie)
+//@   atcall (*CookieJar).getCookiesByHost: filed-under-host-without-port: host == jarHost(last(@utils.UnsafeString))
+//@   loop 1
+//@     invariant fresh-list: len(newCookies) <= i && i <= len(cookies) && cap(newCookies) == len(cookies) && arr(newCookies) != arr(cookies) && arr(newCookies) != 0 && off(newCookies) == 0
+//@     invariant taken-live-unpooled: !exists(j, 0, len(newCookies), newCookies[j] == nil || jcPooled[newCookies[j]] || !jcLive(jcExp[newCookies[j]], clockNow))
+//@     invariant taken-path-is-prefix-of-request-path: !exists(j, 0, len(newCookies), !pathMatch(str(path), jcPath[newCookies[j]]))
+//@     invariant taken-not-ahead: !exists(j, 0, len(newCookies), exists(k, i, len(cookies), newCookies[j] == cookies[k]))
+//@     invariant taken-distinct: !exists(j, 0, len(newCookies), exists(m, 0, j, newCookies[m] == newCookies[j]))
+//@     invariant matching-taken: !exists(k, 0, i, pathMatch(str(path), jcPath[cookies[k]]) && !exists(j, 0, len(newCookies), newCookies[j] == cookies[k]))
+//@     invariant taken-from-purged: !exists(j, 0, len(newCookies), !exists(k, 0, i, newCookies[j] == cookies[k]))
+//@     invariant purged-is-jar-list: jarLen(cj, hostStr) == len(cookies) && (len(cookies) > 0 ==> arr(cj.hostCookies[hostStr]) == arr(cookies) && off(cj.hostCookies[hostStr]) == off(cookies))
+//@     invariant purged-live-unpooled: !exists(k, 0, len(cookies), cookies[k] == nil || jcPooled[cookies[k]] || !jcLive(jcExp[cookies[k]], clockNow))
+//@     invariant purged-distinct: !exists(k, 0, len(cookies), exists(m, 0, k, cookies[m] == cookies[k]))
+//@   ensures only-live: !exists(j, 0, len(result), result[j] == nil || jcPooled[result[j]] || !jcLive(jcExp[result[j]], clockNow))
+//@   ensures only-cookie-path-prefix-of-request-path: !exists(j, 0, len(result), !pathMatch(str(path), jcPath[result[j]]))
+//@   ensures every-matching-live-one: !exists(k, 0, jarLen(cj, jarHost(str(host))), pathMatch(str(path), jcPath[jarAt(cj, jarHost(str(host)), k)]) && !exists(j, 0, len(result), result[j] == jarAt(cj, jarHost(str(host)), k)))
+//@   ensures only-stored-for-host: !exists(j, 0, len(result), !exists(k, 0, jarLen(cj, jarHost(str(host))), result[j] == jarAt(cj, jarHost(str(host)), k)))
+//@   ensures each-once: !exists(j, 0, len(result), exists(m, 0, j, result[m] == result[j]))
+
+// Get(uri): the public face of getByHostAndPath.
+//@ macro uHost(u) = jarHost(uriHost(u, epoch))
+//@ macro uPath(u) = uriPath(u, epoch)
+//@ func (*CookieJar).Get
+//@   requires lock-free: !held(cj.mu)
+//@   requires list-not-pooled: uri != nil ==> listNoPooled(cj, uHost(uri))
+//@   requires list-no-duplicates: uri != nil ==> listNoDup(cj, uHost(uri))
+//@   modifies clockNow, jcPooled, ckKey, ckVal, jcPath, jcExp, heap(E_p_fasthttp_Cookie), heap(MV_string_LJp_fasthttp_Cookie), heap(MD_string_LJp_fasthttp_Cookie)
+//@   ensures no-uri-no-cookies: uri == nil ==> len(result) == 0
+//@   ensures only-live: !exists(j, 0, len(result), result[j] == nil || jcPooled[result[j]] || !jcLive(jcExp[result[j]], clockNow))
+//@   ensures only-cookie-path-prefix-of-request-path: !exists(j, 0, len(result), !pathMatch(uPath(uri), jcPath[result[j]]))
+//@   ensures only-stored-for-host: !exists(j, 0, len(result), !exists(k, 0, jarLen(cj, uHost(uri)), result[j] == jarAt(cj, uHost(uri), k)))
+//@   ensures every-matching-live-one: uri != nil ==> !exists(k, 0, jarLen(cj, uHost(uri)), pathMatch(uPath(uri), jcPath[jarAt(cj, uHost(uri), k)]) && !exists(j, 0, len(result), result[j] == jarAt(cj, uHost(uri), k)))
+//@   ensures each-once: !exists(j, 0, len(result), exists(m, 0, j, result[m] == result[j]))
+
+// dumpCookiesToReq(req): the jar's contribution to an outgoing request. Every cookie pair it adds to the
+// request header is the key/value of a cookie that is stored for the request's host, live, and whose path
+// is a prefix of the request path (nothing leaks across hosts, paths or expiry); every such cookie is sent.
+//@ macro rHost(r) = jarHost(uriHost(reqURI(r, epoch), epoch))
+//@ macro rPath(r) = uriPath(reqURI(r, epoch), epoch)
+//@ func (*CookieJar).dumpCookiesToReq
+//@   requires lock-free: !held(cj.mu)
+//@   requires list-not-pooled: listNoPooled(cj, rHost(req))
+//@   requires list-no-duplicates: listNoDup(cj, rHost(req))
+//@   modifies jarHas, jarVal, clockNow, jcPooled, ckKey, ckVal, jcPath, jcExp, heap(E_p_fasthttp_Cookie), heap(MV_string_LJp_fasthttp_Cookie), heap(MD_string_LJp_fasthttp_Cookie)
+//@   loop 1
+//@     invariant index-in-range: rangeindex + 1 <= len(cookies)
+//@     invariant sent-so-far: !exists(j, 0, rangeindex + 1, !jarHas[req.Header][ckKey[cookies[j]]])
+//@     invariant sent-only-from-list: !existsS(n, jarHas[req.Header][n] && !old(jarHas[req.Header][n]) && !exists(j, 0, rangeindex + 1, ckKey[cookies[j]] == n && ckVal[cookies[j]] == jarVal[req.Header][n]))
+//@     invariant kept-earlier: !existsS(n, old(jarHas[req.Header][n]) && !jarHas[req.Header][n])
+//@     invariant other-headers-untouched: !existsI(h, h != req.Header && (jarHas[h] != old(jarHas[h]) || jarVal[h] != old(jarVal[h])))
+//@   ensures sends-only-live-matching-cookies-of-the-host: !existsS(n, jarHas[req.Header][n] && !old(jarHas[req.Header][n]) && !exists(k, 0, jarLen(cj, rHost(req)), ckKey[jarAt(cj, rHost(req), k)] == n && ckVal[jarAt(cj, rHost(req), k)] == jarVal[req.Header][n] && pathMatch(rPath(req), jcPath[jarAt(cj, rHost(req), k)]) && jcLive(jcExp[jarAt(cj, rHost(req), k)], clockNow)))
+//@   ensures sends-every-live-matching-cookie: !exists(k, 0, jarLen(cj, rHost(req)), pathMatch(rPath(req), jcPath[jarAt(cj, rHost(req), k)]) && !jarHas[req.Header][ckKey[jarAt(cj, rHost(req), k)]])
+//@   ensures other-headers-untouched: !existsI(h, h != req.Header && (jarHas[h] != old(jarHas[h]) || jarVal[h] != old(jarVal[h])))
+
+// SetByHost(host, cookies...): files copies of the given cookies under exactly `host`. A cookie whose
+// (key, path) is already stored is overwritten in place, any other one gets a cookie object of its own
+// from the pool - never one that the list already holds. Entries of other hosts are not touched.
+//@ macro sameAttrs(a, b) = ckKey[a] == ckKey[b] && ckVal[a] == ckVal[b] && jcPath[a] == jcPath[b] && jcExp[a] == jcExp[b]
+//@ func (*CookieJar).SetByHost
+//@   requires lock-free: !held(cj.mu)
+//@   requires list-not-pooled: listNoPooled(cj, str(host))
+//@   requires list-no-duplicates: listNoDup(cj, str(host))
+//@   requires caller-holds-its-cookies: !exists(n, 0, len(cookies), cookies[n] == nil || jcPooled[cookies[n]])
+//@   requires given-cookies-are-not-the-jars: !exists(n, 0, jarLen(cj, str(host)), exists(m, 0, len(cookies), jarAt(cj, str(host), n) == cookies[m]))
+//@   requires given-slice-is-not-the-jars: arr(cookies) == nil || !indom(cj.hostCookies, str(host)) || arr(cookies) != arr(cj.hostCookies[str(host)])
+//@   modifies jcPooled, ckKey, ckVal, jcPath, jcExp, cj.hostCookies, heap(E_p_fasthttp_Cookie), heap(MV_string_LJp_fasthttp_Cookie), heap(MD_string_LJp_fasthttp_Cookie)
+//@   lock cj.mu protects jcPooled inv jar-holds-no-pooled-cookie: listNoPooled(cj, str(host)) && !exists(n, 0, len(cookies), cookies[n] == nil || jcPooled[cookies[n]])
+//@   atcall searchCookieByKeyAndPath: looks-up-this-cookie-under-lock: held(cj.mu) && str(key) == ckKey[cookie] && str(path) == jcPath[cookie]
+//@   atcall @fasthttp.AcquireCookie: only-for-a-cookie-not-yet-stored: held(cj.mu) && last(searchCookieByKeyAndPath) == nil
+//@   atcall @fasthttp.(*Cookie).CopyTo: copies-the-given-cookie-into-the-jars-own: held(cj.mu) && src == cookie && c != cookie
+//@   loop 1
+//@     invariant still-held: held(cj.mu) && cj.hostCookies != nil && rangeindex + 1 <= len(cookies)
+//@     invariant separate-slices: arr(cookies) == nil || arr(cookies) != arr(hostCookies)
+//@     invariant list-wf: !exists(n, 0, len(hostCookies), hostCookies[n] == nil || jcPooled[hostCookies[n]])
+//@     invariant list-distinct: !exists(n, 0, len(hostCookies), exists(m, 0, n, hostCookies[m] == hostCookies[n]))
+//@     invariant list-not-the-callers: !exists(n, 0, len(hostCookies), exists(m, 0, len(cookies), hostCookies[n] == cookies[m]))
+//@     invariant inputs-held: !exists(n, 0, len(cookies), cookies[n] == nil || jcPooled[cookies[n]])
+//@     invariant earlier-entries-kept: len(hostCookies) >= old(jarLen(cj, str(host))) && !exists(k, 0, old(jarLen(cj, str(host))), hostCookies[k] != old(jarAt(cj, str(host), k)))
+//@     invariant current-stored: rangeindex >= 0 ==> exists(n, 0, len(hostCookies), sameAttrs(hostCookies[n], cookies[rangeindex]))
+//@     invariant inputs-unchanged: !exists(n, 0, len(cookies), ckKey[cookies[n]] != old(ckKey[cookies[n]]) || ckVal[cookies[n]] != old(ckVal[cookies[n]]) || jcPath[cookies[n]] != old(jcPath[cookies[n]]) || jcExp[cookies[n]] != old(jcExp[cookies[n]]))
+//@     invariant other-hosts-kept: !existsS(h, h != str(host) && old(cj.hostCookies) != nil && (indom(cj.hostCookies, h) != old(indom(cj.hostCookies, h)) || cj.hostCookies[h] != old(cj.hostCookies[h])))
+//@   ensures last-given-cookie-is-stored: len(cookies) > 0 ==> exists(n, 0, jarLen(cj, str(host)), sameAttrs(jarAt(cj, str(host), n), cookies[len(cookies) - 1]))
+//@   ensures stores-copies: !exists(n, 0, jarLen(cj, str(host)), exists(m, 0, len(cookies), jarAt(cj, str(host), n) == cookies[m]))
+//@   ensures given-cookies-unchanged: !exists(n, 0, len(cookies), ckKey[cookies[n]] != old(ckKey[cookies[n]]) || ckVal[cookies[n]] != old(ckVal[cookies[n]]) || jcPath[cookies[n]] != old(jcPath[cookies[n]]) || jcExp[cookies[n]] != old(jcExp[cookies[n]]))
+//@   ensures earlier-entries-kept: jarLen(cj, str(host)) >= old(jarLen(cj, str(host))) && !exists(k, 0, old(jarLen(cj, str(host))), jarAt(cj, str(host), k) != old(jarAt(cj, str(host), k)))
+//@   ensures other-hosts-untouched: !existsS(h, h != str(host) && old(cj.hostCookies) != nil && (indom(cj.hostCookies, h) != old(indom(cj.hostCookies, h)) || cj.hostCookies[h] != old(cj.hostCookies[h])))
+//@   ensures list-not-pooled: listNoPooled(cj, str(host))
+//@   ensures list-no-duplicates: listNoDup(cj, str(host))
+
+// Set(uri, cookies...): files the cookies under the host of the URL - the host Get(uri) and
+// dumpCookiesToReq look under, i.e. without the port.
+//@ func (*CookieJar).Set
+//@   requires lock-free: !held(cj.mu)
+//@   requires list-not-pooled: uri != nil ==> listNoPooled(cj, uriHost(uri, epoch))
+//@   requires list-no-duplicates: uri != nil ==> listNoDup(cj, uriHost(uri, epoch))
+//@   requires caller-holds-its-cookies: !exists(n, 0, len(cookies), cookies[n] == nil || jcPooled[cookies[n]])
+//@   requires given-cookies-are-not-the-jars: uri != nil ==> !exists(n, 0, jarLen(cj, uriHost(uri, epoch)), exists(m, 0, len(cookies), jarAt(cj, uriHost(uri, epoch), n) == cookies[m]))
+//@   requires given-slice-is-not-the-jars: uri == nil || arr(cookies) == nil || !indom(cj.hostCookies, uriHost(uri, epoch)) || arr(cookies) != arr(cj.hostCookies[uriHost(uri, epoch)])
+//@   modifies jcPooled, ckKey, ckVal, jcPath, jcExp, cj.hostCookies, heap(E_p_fasthttp_Cookie), heap(MV_string_LJp_fasthttp_Cookie), heap(MD_string_LJp_fasthttp_Cookie)
+//@   atcall (*CookieJar).SetByHost: filed-where-get-looks: str(host) == jarHost(uriHost(uri, epoch))
+//@   ensures last-given-cookie-is-stored: uri != nil && len(cookies) > 0 ==> exists(n, 0, jarLen(cj, uriHost(uri, epoch)), sameAttrs(jarAt(cj, uriHost(uri, epoch), n), cookies[len(cookies) - 1]))
+//@   ensures no-uri-no-effect: uri == nil ==> cj.hostCookies == old(cj.hostCookies)
+
+// SetKeyValue / SetKeyValueBytes(host, key, value): a session cookie key=value for every path of `host`.
+//@ func (*CookieJar).SetKeyValue
+//@   requires lock-free: !held(cj.mu)
+//@   requires list-exists: !indom(cj.hostCookies, host) || arr(cj.hostCookies[host]) == nil || allocated(arr(cj.hostCookies[host]))
+//@   requires list-not-pooled: listNoPooled(cj, host)
+//@   requires list-no-duplicates: listNoDup(cj, host)
+//@   modifies jcPooled, ckKey, ckVal, jcPath, jcExp, cj.hostCookies, heap(E_p_fasthttp_Cookie), heap(MV_string_LJp_fasthttp_Cookie), heap(MD_string_LJp_fasthttp_Cookie)
+//@   ensures stored: exists(n, 0, jarLen(cj, host), ckKey[jarAt(cj, host, n)] == key && ckVal[jarAt(cj, host, n)] == value && jcPath[jarAt(cj, host, n)] == "" && tUnlimited(jcExp[jarAt(cj, host, n)]))
+//@   ensures list-not-pooled: listNoPooled(cj, host)
+//@   ensures list-no-duplicates: listNoDup(cj, host)
+//@ func (*CookieJar).SetKeyValueBytes
+//@   requires lock-free: !held(cj.mu)
+//@   requires list-exists: !indom(cj.hostCookies, host) || arr(cj.hostCookies[host]) == nil || allocated(arr(cj.hostCookies[host]))
+//@   requires list-not-pooled: listNoPooled(cj, host)
+//@   requires list-no-duplicates: listNoDup(cj, host)
+//@   modifies jcPooled, ckKey, ckVal, jcPath, jcExp, cj.hostCookies, heap(E_p_fasthttp_Cookie), heap(MV_string_LJp_fasthttp_Cookie), heap(MD_string_LJp_fasthttp_Cookie)
+//@   ensures stored: exists(n, 0, jarLen(cj, host), ckKey[jarAt(cj, host, n)] == old(str(key)) && ckVal[jarAt(cj, host, n)] == old(str(value)) && jcPath[jarAt(cj, host, n)] == "" && tUnlimited(jcExp[jarAt(cj, host, n)]))
+//@   ensures list-not-pooled: listNoPooled(cj, host)
+//@   ensures list-no-duplicates: listNoDup(cj, host)
+
+// Release(): the jar is empty afterwards - no host has a cookie. ReleaseCookieJar: the same, before the
+// jar goes back to its pool (so the next AcquireCookieJar starts empty).
+//@ func (*CookieJar).Release
+//@   modifies cj.hostCookies
+//@   ensures empty: cj.hostCookies == nil
+//@ func ReleaseCookieJar
+//@   modifies c.hostCookies
+//@   atcall @sync.(*Pool).Put: pooled-empty: called((*CookieJar).Release)
+//@   ensures empty: c.hostCookies == nil
+
+// parseCookiesFromResp(host, path, resp): the Set-Cookie headers of a response go into the list of the
+// request's host. The work is done by the closure handed to VisitAllCookie, once per Set-Cookie header
+// (key, value = the whole header value); `cookies` is the captured working list.
+// Per header: the cookie object that receives the header is the stored one with that key (and path) or,
+// only if there is none, a new one from the pool; nothing but that object changes; a live cookie is in the
+// list afterwards - exactly once: an existing entry is updated where it is, not added a second time, and
+// the list never has two entries for one (key, path); a cookie that arrives expired and had to be created
+// for parsing goes back to the pool - a stored one never does. The list invariants are `preserves`
+// clauses: they hold before the first and after the last header.
+//@ macro kept() = tUnlimited(scExp(old(str(value)))) || (called("@time.(Time).After") && last("@time.(Time).After"))
+//@ func (*CookieJar).parseCookiesFromResp$1
+//@   preserves list-not-pooled: !exists(n, 0, len(cookies), cookies[n] == nil || jcPooled[cookies[n]])
+//@   preserves no-object-twice-in-list: !exists(n, 0, len(cookies), exists(m, 0, n, cookies[m] == cookies[n]))
+// (requires/ensures rather than preserves: the engine asserts `preserves` after havocking the ghosts that the
+// assumed VisitAllCookie contract of mw_C20.spec lists as modified, ckKey among them)
+//@   requires one-entry-per-key-and-path: forall(n, 0, len(cookies), forall(m, 0, n, ckKey[cookies[m]] != ckKey[cookies[n]] || jcPath[cookies[m]] != jcPath[cookies[n]]))
+//@   atcall searchCookieByKeyAndPath: looks-up-the-header-key-in-the-list: str(arg0) == str(key) && arg2 == cookies
+//@   atcall @fasthttp.AcquireCookie: only-for-a-cookie-not-yet-stored: last(searchCookieByKeyAndPath) == nil
+//@   atcall @fasthttp.(*Cookie).ParseBytes: parses-this-header: str(src) == str(value)
+//@   atcall @fasthttp.ReleaseCookie: only-own-expired-temporary-released: created && !kept()
+//@   ensures parsed-into-the-cookie: kept() ==> ckKey[c] == scKey(old(str(value))) && ckVal[c] == scVal(old(str(value))) && jcPath[c] == scPath(old(str(value))) && jcExp[c] == scExp(old(str(value)))
+//@   ensures stored-cookie-reused: !created ==> exists(n, 0, old(len(cookies)), old(cookies[n]) == c && old(ckKey[c]) == old(str(key)))
+//@   ensures live-cookie-is-in-the-list: kept() ==> exists(n, 0, len(cookies), cookies[n] == c)
+//@   ensures updated-in-place-not-added-again: !created ==> len(cookies) == old(len(cookies))
+//@   ensures earlier-entries-kept: len(cookies) >= old(len(cookies)) && !exists(k, 0, old(len(cookies)), cookies[k] != old(cookies[k]))
+//@   ensures other-cookies-unchanged: !existsI(x, x != c && (ckKey[x] != old(ckKey[x]) || ckVal[x] != old(ckVal[x]) || jcPath[x] != old(jcPath[x]) || jcExp[x] != old(jcExp[x])))
+//@   ensures expired-temporary-released: created && !kept() ==> jcPooled[c] && len(cookies) == old(len(cookies))
+//@   ensures stored-cookies-not-released: !existsI(x, x != c && jcPooled[x] != old(jcPooled[x])) && (!created || kept() ==> !jcPooled[c])
+//@   ensures one-entry-per-key-and-path: forall(n, 0, len(cookies), forall(m, 0, n, ckKey[cookies[m]] != ckKey[cookies[n]] || jcPath[cookies[m]] != jcPath[cookies[n]]))
+
+// The enclosing function: everything happens under the jar's lock, the working list is the host's list and
+// is filed back under the host that Get / dumpCookiesToReq look under (without the port).
+//@ func (*CookieJar).parseCookiesFromResp
+//@   requires lock-free: !held(cj.mu)
+//@   requires list-not-pooled: listNoPooled(cj, str(host))
+//@   requires list-no-duplicates: listNoDup(cj, str(host))
+//@   lock cj.mu protects jcPooled inv jar-holds-no-pooled-cookie: listNoPooled(cj, old(str(host)))
+//@   atcall @fasthttp.(*ResponseHeader).VisitAllCookie: under-lock: held(cj.mu)
+//@   ensures filed-under-the-host: cj.hostCookies != nil ==> indom(cj.hostCookies, old(str(host)))
+//@   ensures filed-where-get-looks: cj.hostCookies != nil ==> indom(cj.hostCookies, jarHost(old(str(host))))
+
+// ---------------------------------------------------------------------------------------------
+// C18, part 2: assembling the request (hooks.go) - the client sends what it was told
+// ---------------------------------------------------------------------------------------------
+// The raw request's header/args/body are the ghost views rhUA, rhReferer, rhHas, jarHas/jarVal (cookies),
+// argHas, reqBody of mw_C18.spec / mw_C20.spec. The configuration is copied by closures passed to VisitAll
+// (assumed: VisitAll calls its argument once per entry); each closure has its own contract. Precedence is
+// "last writer wins", so it is stated as clauses on the ORDER of the writes (atcall).
+// (Callbacks havoc the heap, therefore configuration fields are read in the state of the call they feed.)
+
+// c.header / req.header  ->  every configured header line is ADDED to the raw request of this request
+// (AddBytesKV never replaces or removes a line, so request-level headers are sent in addition).
+//@ func parserRequestHeader$1
+//@   pure
+//@   atcall @fasthttp.(*RequestHeader).AddBytesKV: client-header-line-sent: h == req.RawRequest.Header && str(arg1) == str(key) && str(arg2) == str(value)
+//@ func parserRequestHeader$2
+//@   pure
+//@   atcall @fasthttp.(*RequestHeader).AddBytesKV: request-header-line-sent-in-addition: h == req.RawRequest.Header && str(arg1) == str(key) && str(arg2) == str(value)
+// c.cookies / req.cookies  ->  the cookie is set (replacing an earlier value of that name only).
+//@ func parserRequestHeader$3
+//@   ensures client-cookie-sent: jarHas[req.RawRequest.Header][key] && jarVal[req.RawRequest.Header][key] == val
+//@   ensures other-cookies-kept: forallS(n, n != key ==> jarHas[req.RawRequest.Header][n] == old(jarHas[req.RawRequest.Header][n]) && jarVal[req.RawRequest.Header][n] == old(jarVal[req.RawRequest.Header][n]))
+//@ func parserRequestHeader$4
+//@   ensures request-cookie-sent: jarHas[req.RawRequest.Header][key] && jarVal[req.RawRequest.Header][key] == val
+//@   ensures other-cookies-kept: forallS(n, n != key ==> jarHas[req.RawRequest.Header][n] == old(jarHas[req.RawRequest.Header][n]) && jarVal[req.RawRequest.Header][n] == old(jarVal[req.RawRequest.Header][n]))
+
+// Trivial accessors / helpers used while assembling.
+//@ func (*Request).Method
+//@   pure
+//@   ensures result == r.method
+// (random multipart boundary suffix: irrelevant for C18, not verified)
+//@ func unsafeRandString assumed pure
+
+// Cookie maps and path-parameter maps: VisitAll calls f(k, v) once for every entry (3-line range loops).
+//@ func (Cookie).VisitAll assumed
+//@   callsback
+//@ func (PathParam).VisitAll assumed
+//@   callsback
+
+// parserRequestHeader: user agent  request > client > default;  referer  request > client;
+// cookies  jar < client < request (later writes replace earlier ones of the same name); headers of both levels.
+//@ func parserRequestHeader
+//@   requires jar-usable: c.cookieJar != nil ==> !held(c.cookieJar.mu) && listNoPooled(c.cookieJar, rHost(req.RawRequest)) && listNoDup(c.cookieJar, rHost(req.RawRequest))
+//@   atcall @fasthttp.(*RequestHeader).VisitAll: client-headers-then-request-headers: (!called("@fasthttp.(*RequestHeader).VisitAll") && arg0 == c.header.RequestHeader) || (called("@fasthttp.(*RequestHeader).VisitAll") && arg0 == req.header.RequestHeader)
+//@   atcall @fasthttp.(*RequestHeader).SetUserAgent: default-then-client-then-request: h == req.RawRequest.Header && ((!called("@fasthttp.(*RequestHeader).SetUserAgent") && userAgent == defaultUserAgent) || (rhUA[h] == defaultUserAgent && userAgent == c.userAgent && userAgent != "") || (userAgent == req.userAgent && userAgent != ""))
+//@   atcall @fasthttp.(*RequestHeader).SetReferer: user-agent-settled: rhUA[req.RawRequest.Header] == ite(req.userAgent != "", req.userAgent, ite(c.userAgent != "", c.userAgent, defaultUserAgent))
+//@   atcall @fasthttp.(*RequestHeader).SetReferer: client-then-request: h == req.RawRequest.Header && ((!called("@fasthttp.(*RequestHeader).SetReferer") && referer == c.referer) || (called("@fasthttp.(*RequestHeader).SetReferer") && referer == req.referer && referer != ""))
+//@   atcall (*CookieJar).dumpCookiesToReq: jar-cookies-first: !called("(Cookie).VisitAll") && cj == c.cookieJar
+//@   atcall (Cookie).VisitAll: request-referer-wins: !called("(Cookie).VisitAll") && req.referer != "" ==> rhReferer[req.RawRequest.Header] == req.referer
+//@   atcall (Cookie).VisitAll: request-cookies-last: called("(Cookie).VisitAll") ==> arg0 == *req.cookies
+//@   ensures no-error: result == nil
+
+// parserRequestURL: path parameters - the request's are substituted BEFORE the client's (so for a name
+// configured on both levels the request's value is the one that lands in the URL); query parameters -
+// the client's are added, then the request's, all of them (Add never replaces).
+//@ func parserRequestURL$1
+//@   atcall @strings.ReplaceAll: substitutes-this-request-parameter: arg1 == ":" + key && arg2 == val
+//@ func parserRequestURL$2
+//@   atcall @strings.ReplaceAll: substitutes-this-client-parameter: arg1 == ":" + key && arg2 == val
+//@ func parserRequestURL$3
+//@   ensures client-query-parameter-sent: argHas[args][old(str(key))][old(str(value))]
+//@   ensures nothing-dropped: forallI(a, forallS(k, forallS(v, old(argHas[a][k][v]) ==> argHas[a][k][v])))
+//@ func parserRequestURL$4
+//@   ensures request-query-parameter-sent-in-addition: argHas[args][old(str(key))][old(str(value))]
+//@   ensures nothing-dropped: forallI(a, forallS(k, forallS(v, old(argHas[a][k][v]) ==> argHas[a][k][v])))
+//@ func parserRequestURL
+//@   atcall (PathParam).VisitAll: request-path-parameters-first: (!called("(PathParam).VisitAll") && arg0 == *req.path) || (called("(PathParam).VisitAll") && arg0 == *c.path)
+//@   atcall @fasthttp.(*Args).VisitAll: client-query-then-request-query: called("(PathParam).VisitAll") && ((!called("@fasthttp.(*Args).VisitAll") && arg0 == c.params.Args) || (called("@fasthttp.(*Args).VisitAll") && arg0 == req.params.Args))
+
+// parserRequestBody: the body that is sent is the one configured, by kind.
+//@ ghost bodyMarshalled string
+//@ ghost bodyMarshalledBy int
+//@ func Client.jsonMarshal assumed
+//@   modifies bodyMarshalled, bodyMarshalledBy
+//@   ensures bodyMarshalledBy == 1 && (result1 == nil ==> bodyMarshalled == str(result0))
+//@ func Client.xmlMarshal assumed
+//@   modifies bodyMarshalled, bodyMarshalledBy
+//@   ensures bodyMarshalledBy == 2 && (result1 == nil ==> bodyMarshalled == str(result0))
+//@ func Client.cborMarshal assumed
+//@   modifies bodyMarshalled, bodyMarshalledBy
+//@   ensures bodyMarshalledBy == 3 && (result1 == nil ==> bodyMarshalled == str(result0))
+//@ func parserRequestBodyFile assumed
+//@   modifies heap
+//@ func parserRequestBody
+//@   ensures json-body-is-marshalled-value: old(req.bodyType) == jsonBody && result == nil ==> bodyMarshalledBy == 1 && reqBody[old(req.RawRequest)] == bodyMarshalled
+//@   ensures xml-body-is-marshalled-value: old(req.bodyType) == xmlBody && result == nil ==> bodyMarshalledBy == 2 && reqBody[old(req.RawRequest)] == bodyMarshalled
+//@   ensures cbor-body-is-marshalled-value: old(req.bodyType) == cborBody && result == nil ==> bodyMarshalledBy == 3 && reqBody[old(req.RawRequest)] == bodyMarshalled
+//@   ensures form-body-is-the-form-data: old(req.bodyType) == formBody ==> result == nil && reqBody[old(req.RawRequest)] == old(argsQS(req.formData.Args, epoch))
+//@   ensures no-body-untouched: old(req.bodyType) == noBody ==> result == nil && reqBody == old(reqBody)
+
+// core.timeout: the request's timeout wins over the client's.
+//@ func (*core).timeout
+//@   atcall @context.WithTimeout: request-timeout-wins: timeout == ite(c.req.timeout > 0, c.req.timeout, c.client.timeout) && timeout > 0
+//@   ensures no-timeout-configured-no-deadline: old(c.req.timeout) <= 0 && old(c.client.timeout) <= 0 ==> result == nil && c.ctx == old(c.ctx)
+
+// parserResponseCookie (hooks.go) is NOT under contract: its first statement is a VisitAllCookie callback that
+// appends to resp.cookie; the callback havoc leaves no state in which the preconditions of
+// parseCookiesFromResp (lock free, list well-formed) could be established. Undecided: that it files the
+// cookies under the host and path of this very request.
